@@ -1,9 +1,149 @@
 package main
 
-// Lock-set tracking for C10 (filled in later).
+// Lock-set tracking (C10).  vsymTrack(p) marks the object p points to — and
+// everything reachable from it — as shared state.  Every load/store/map
+// access to a tracked object is recorded with: the location (object label +
+// top-level field), read/write, whether the current thread holds a mutex, the
+// thread, and the Screen method under analysis (the harness's "method" note).
 
-func (ex *Exec) trackAccess(st *State, fr *Frame, p Ptr, write bool) {}
-func (ex *Exec) mergeAccess(st *State)                               {}
+import (
+	"fmt"
+	"go/types"
+	"sort"
+)
+
+type trackInfo struct {
+	labels map[int]string       // object id -> label
+	root   int
+	rootT  *types.Struct
+}
+
+func (ex *Exec) startTracking(st *State, iv IfaceV) {
+	p, ok := iv.v.(Ptr)
+	if !ok || p.IsNil() {
+		unsup("vsymTrack needs a non-nil pointer")
+	}
+	ti := &trackInfo{labels: map[int]string{}, root: p.obj}
+	if pt, ok := iv.t.Underlying().(*types.Pointer); ok {
+		if s, ok := pt.Elem().Underlying().(*types.Struct); ok {
+			ti.rootT = s
+		}
+	}
+	var walk func(v Value, label string, depth int)
+	walk = func(v Value, label string, depth int) {
+		if depth > 8 {
+			return
+		}
+		switch x := v.(type) {
+		case *StructV:
+			for i, f := range x.f {
+				walk(f, label, depth+1)
+				_ = i
+			}
+		case *ArrayV:
+			if len(x.e) > 64 {
+				return
+			}
+			for _, f := range x.e {
+				walk(f, label, depth+1)
+			}
+		case Ptr:
+			if !x.IsNil() {
+				if _, seen := ti.labels[x.obj]; !seen {
+					ti.labels[x.obj] = label
+					walk(st.heap.get(x.obj).v, label, depth+1)
+				}
+			}
+		case SliceV:
+			if !x.IsNil() {
+				if _, seen := ti.labels[x.arr.obj]; !seen {
+					ti.labels[x.arr.obj] = label
+					walk(st.heap.get(x.arr.obj).v, label, depth+1)
+				}
+			}
+		case MapV:
+			if x.obj != 0 {
+				if _, seen := ti.labels[x.obj]; !seen {
+					ti.labels[x.obj] = label
+				}
+			}
+		case IfaceV:
+			if x.t != nil {
+				walk(x.v, label, depth+1)
+			}
+		}
+	}
+	ti.labels[p.obj] = ""
+	root := st.heap.get(p.obj).v
+	if sv, ok := root.(*StructV); ok && ti.rootT != nil {
+		for i, f := range sv.f {
+			name := ti.rootT.Field(i).Name()
+			if name == "ti" || name == "tty" || name == "Screen" {
+				continue // the terminal description is immutable input; the tty has its own contract
+			}
+			walk(f, name, 1)
+		}
+	}
+	st.track = p.obj
+	st.trackInfo = ti
+}
+
+func (ex *Exec) trackAccess(st *State, fr *Frame, p Ptr, write bool) {
+	ti := st.trackInfo
+	if ti == nil {
+		return
+	}
+	label, ok := ti.labels[p.obj]
+	if !ok {
+		return
+	}
+	if p.obj == ti.root {
+		es := pathElems(p.path)
+		if len(es) == 0 || ti.rootT == nil || es[0] >= ti.rootT.NumFields() {
+			return
+		}
+		label = ti.rootT.Field(es[0]).Name()
+		if label == "Mutex" || label == "ti" || label == "tty" || label == "wg" || label == "finiOnce" {
+			return
+		}
+	}
+	th := st.thread()
+	locked := false
+	for _, k := range st.held {
+		if st.sideStr[k] == th.name {
+			locked = true
+		}
+	}
+	method := ""
+	for i := len(st.notes) - 1; i >= 0; i-- {
+		if st.notes[i].Key == "method" {
+			method = st.notes[i].Val
+			break
+		}
+	}
+	site := fr.fn.Name()
+	a := ex.accessAll[label]
+	if a == nil {
+		a = &AccessSummary{Loc: label, Threads: map[string]bool{}, Sites: map[string]bool{}, UnlockedAt: map[string]bool{}, Writers: map[string]bool{}}
+		ex.accessAll[label] = a
+	}
+	if write {
+		a.Writes++
+		a.Writers[method+" ("+site+")"] = true
+	} else {
+		a.Reads++
+	}
+	if !locked {
+		a.Unlocked++
+		if write {
+			a.UnlockedW++
+		}
+		a.UnlockedAt[method+" ("+site+")"] = true
+	}
+	a.Threads[th.name] = true
+}
+
+func (ex *Exec) mergeAccess(st *State) {}
 
 func mergeAccessSummary(dst, src *AccessSummary) {
 	dst.Reads += src.Reads
@@ -11,21 +151,75 @@ func mergeAccessSummary(dst, src *AccessSummary) {
 	dst.Unlocked += src.Unlocked
 	dst.UnlockedW += src.UnlockedW
 	for k := range src.Threads {
-		if dst.Threads == nil {
-			dst.Threads = map[string]bool{}
-		}
 		dst.Threads[k] = true
 	}
 	for k := range src.Sites {
-		if dst.Sites == nil {
-			dst.Sites = map[string]bool{}
-		}
 		dst.Sites[k] = true
 	}
 	for k := range src.UnlockedAt {
-		if dst.UnlockedAt == nil {
-			dst.UnlockedAt = map[string]bool{}
-		}
 		dst.UnlockedAt[k] = true
 	}
+	for k := range src.Writers {
+		dst.Writers[k] = true
+	}
+}
+
+// raceCandidates: locations written after tracking started and accessed without the lock somewhere.
+func raceCandidates(acc map[string]*AccessSummary) []string {
+	var out []string
+	for loc, a := range acc {
+		if a.Writes > 0 && a.Unlocked > 0 {
+			var ws, us []string
+			for w := range a.Writers {
+				ws = append(ws, w)
+			}
+			for u := range a.UnlockedAt {
+				us = append(us, u)
+			}
+			sort.Strings(ws)
+			sort.Strings(us)
+			out = append(out, fmt.Sprintf("%s: written by %v; accessed without the screen lock by %v", loc, ws, us))
+		}
+	}
+	sort.Strings(out)
+	return out
+}
+
+// trackNew: an object stored into tracked state becomes tracked itself (e.g. the
+// cell array allocated by Resize).  The label map is copied on write.
+func (ex *Exec) trackNew(st *State, target Ptr, v Value) {
+	ti := st.trackInfo
+	label, ok := ti.labels[target.obj]
+	if !ok {
+		return
+	}
+	if target.obj == ti.root && ti.rootT != nil {
+		if es := pathElems(target.path); len(es) > 0 && es[0] < ti.rootT.NumFields() {
+			label = ti.rootT.Field(es[0]).Name()
+		}
+	}
+	id := 0
+	switch x := v.(type) {
+	case Ptr:
+		id = x.obj
+	case SliceV:
+		id = x.arr.obj
+	case MapV:
+		id = x.obj
+	}
+	if id == 0 {
+		return
+	}
+	if _, seen := ti.labels[id]; seen {
+		return
+	}
+	if label == "ti" || label == "tty" || label == "Screen" {
+		return
+	}
+	nl := make(map[int]string, len(ti.labels)+1)
+	for k, v := range ti.labels {
+		nl[k] = v
+	}
+	nl[id] = label
+	st.trackInfo = &trackInfo{labels: nl, root: ti.root, rootT: ti.rootT}
 }
